@@ -386,6 +386,87 @@ def run(ctx):
                     todo.append(h)
         ctx.check(not hit, R9, 'string_key::%s:length-delimited' % f.short, 'keys are compared with %s, which stops at the first NUL byte: two different names that agree up to a \\u0000 become the same key' % (hit[0][0].callee(hit[0][1]) if hit else ''),
                   hit[0][0].loc(hit[0][1]) if hit else f.where, detail={'functions_followed': len(seen)})
+    # ---------------- R10 \\u escapes become UTF-8: utf8::encode and the UTF-16 helpers, exact (E3)
+    R10 = ctx.rule('C11.R10', 'escape decoding arithmetic is exact (E3 over every code point in aligned 64-blocks / every code unit): utf8::encode yields the RFC 3629 byte sequence and its length, '
+                              'is_first_surrogate / is_second_surrogate are exactly D800-DBFF / DC00-DFFF, combine_surrogate is 0x10000 + (hi-D800)*0x400 + (lo-DC00)')
+    from vlib import absint as _ai
+    enc = P.fn('cppcms::utf8::encode', must=False)
+    ctx.require(enc is not None and enc.body is not None, 'C11.R10: utf8::encode not found in the json unit')
+    fc, fl = 'f:cppcms::utf8::seq::c', 'f:cppcms::utf8::seq::len'
+    ctx.require({fc, fl} <= set(enc.N(i).get('ref') for i in enc.all_nodes() if enc.N(i)['k'] == 'MemberExpr'), 'C11.R10: utf8::seq fields not found')
+
+    def ref_utf8(v):
+        if v <= 0x7F:
+            return [v]
+        if v <= 0x7FF:
+            return [0xC0 | (v >> 6), 0x80 | (v & 0x3F)]
+        if v <= 0xFFFF:
+            return [0xE0 | (v >> 12), 0x80 | ((v >> 6) & 0x3F), 0x80 | (v & 0x3F)]
+        return [0xF0 | (v >> 18), 0x80 | ((v >> 12) & 0x3F), 0x80 | ((v >> 6) & 0x3F), 0x80 | (v & 0x3F)]
+
+    def run_enc(it):
+        it.fields = {fc: _ai.Cell(_ai.Arr([_ai.AV.const(0xEE)] * 4, 'c')), fl: _ai.Cell(_ai.AV.const(99))}
+        it.call_fn(enc, [it.inbyte(0)])
+        return list(it.fields[fc].v.elems), it.fields[fl].v
+    step = 1 if ctx.tier == 'thorough' else 7          # quick: every 7th block plus the blocks at the length boundaries
+    blocks = [b for b in range(0, 0x110000 // 64) if b % step == 0 or b in (0, 1, 2, 0x7FF // 64, 0x800 // 64, 0xD7FF // 64, 0xE000 // 64, 0xFFFF // 64, 0x10000 // 64, 0x10FFFF // 64)]
+    bad = []
+    nb = 0
+    for (bx, (cs, ln), it) in _ai.explore(P, run_enc, [[(b * 64, b * 64 + 63)] for b in blocks], max_boxes=400000):
+        nb += 1
+        lo, hi = bx[0]
+        rl, rh = ref_utf8(lo), ref_utf8(hi)
+        okb = len(rl) == len(rh) and ln.is_const() and ln.lo == len(rl)
+        if okb:
+            for k_ in range(len(rl)):
+                e = cs[k_]
+                glo, ghi = (e.lo & 0xFF), (e.hi & 0xFF)
+                if k_ < len(rl) - 1 and (lo >> 6) == (hi >> 6):
+                    okb = okb and e.is_const() and glo == rl[k_]
+                elif k_ == len(rl) - 1:
+                    okb = okb and glo == rl[k_] and ghi == rh[k_] and e.size() == hi - lo + 1
+        if not okb:
+            bad.append('U+%04X..U+%04X: length %r bytes %r, RFC 3629 gives %s .. %s' % (lo, hi, ln, cs[:4], bytes(rl).hex(), bytes(rh).hex()))
+            if len(bad) > 2:
+                break
+    ctx.check(not bad, R10, 'utf8::encode:RFC-3629-bytes-for-every-code-point', '; '.join(bad[:2]), enc.where, detail={'boxes': nb, 'blocks_of_64': len(blocks)})
+    for (nm_, a_, b_) in (('is_first_surrogate', 0xD800, 0xDBFF), ('is_second_surrogate', 0xDC00, 0xDFFF)):
+        f = P.fn('cppcms::utf16::' + nm_, must=False)
+        ctx.require(f is not None and f.body is not None, 'C11.R10: utf16::%s not found' % nm_)
+        bad = []
+        pending = [[(0, 0xFFFF)]]
+        nb = 0
+        while pending:
+            box = pending.pop()
+            for (bx, rv, it) in _ai.explore(P, lambda it, f=f: it.call_fn(f, [it.inbyte(0)]), [box]):
+                lo, hi = bx[0]
+                inside = [a_ <= v <= b_ for v in (lo, hi)]
+                if inside[0] != inside[1] or (lo < a_ and hi > b_):
+                    mid = a_ if lo < a_ <= hi else b_ + 1
+                    pending += [[(lo, mid - 1)], [(mid, hi)]]
+                    continue
+                nb += 1
+                if not (isinstance(rv, _ai.AV) and rv.is_const() and bool(rv.lo) == inside[0]):
+                    bad.append('%04X..%04X -> %r' % (lo, hi, rv))
+        ctx.check(not bad, R10, 'utf16::%s:exactly-%04X-%04X' % (nm_, a_, b_), '; '.join(bad[:3]), f.where, detail={'boxes': nb})
+    cs_ = P.fn('cppcms::utf16::combine_surrogate', must=False)
+    ctx.require(cs_ is not None and cs_.body is not None, 'C11.R10: utf16::combine_surrogate not found')
+    bad = []
+    w1s = range(0xD800, 0xDC00) if ctx.tier == 'thorough' else [0xD800, 0xD801, 0xD834, 0xD9AB, 0xDBFE, 0xDBFF] + list(range(0xD800, 0xDC00, 37))
+    nb = 0
+    for w1 in w1s:
+        for (bx, rv, it) in _ai.explore(P, lambda it, w1=w1: it.call_fn(cs_, [_ai.AV.const(w1), it.inbyte(0)]), [[(0xDC00, 0xDFFF)]]):
+            nb += 1
+            lo, hi = bx[0]
+            want_lo, want_hi = 0x10000 + ((w1 - 0xD800) << 10) + (lo - 0xDC00), 0x10000 + ((w1 - 0xD800) << 10) + (hi - 0xDC00)
+            if not (isinstance(rv, _ai.AV) and rv.lo == want_lo and rv.hi == want_hi and rv.size() == hi - lo + 1):
+                bad.append('(%04X, %04X..%04X) -> %r, expected U+%X..U+%X' % (w1, lo, hi, rv, want_lo, want_hi))
+                break
+        if bad:
+            break
+    ctx.check(not bad, R10, 'utf16::combine_surrogate:exact', '; '.join(bad[:2]), cs_.where, detail={'boxes': nb})
+    ctx.floor(R10, 4)
+
     ctx.floor(R1, 8)
     ctx.floor(R9, 6)
     ctx.floor(R2, 4)
